@@ -14,8 +14,8 @@ PINS = {
     'IntegrityProtectedSKEDataV1.parse': '7313873e82d7a82875d76086',
     'PKESessionKeyV3.decrypt_sk': 'c8ce9e5a48f5e27ec01ba43d',
     'PKESessionKeyV3.encrypt_sk': '170b82b3f5926811069a2a6f',
-    'PKESessionKeyV3.parse': '2ebb141c0279b42d3965c734',
-    'PKESessionKeyV3.__bytearray__': 'ae69825ee724d90a44ad50fd',
+    'PKESessionKeyV3.parse': '934538c88d9ba6c0df7b723b',
+    'PKESessionKeyV3.__bytearray__': 'f7e601ce00c4826100bc8b34',
     'SKESessionKeyV4.decrypt_sk': '1bdcb446948494be46277a26',
     'SKESessionKeyV4.encrypt_sk': 'b931304baacff28793bd0cfc',
     'SKESessionKeyV4.parse': 'b693f5bedd43ab24ef629ffb',
@@ -30,7 +30,7 @@ PINS = {
     'PGPMessage.decrypt': 'd6e757fd7a8153ea518d3485',
     'PGPMessage.encrypt': '9fd8589aa9549f4186bfec06',
     'PGPKey.decrypt': '632acde6a7851a51f39912d5',
-    'PGPKey.encrypt': '0bde8025c0998a6ef6798f8e',
+    'PGPKey.encrypt': 'cc46eba4b9a9b6bfef991bd2',
     'symenc._encrypt': '2a8698e9a5b631f1b45c3714',
     'symenc._decrypt': 'f211257329e77dcce50ee7cd',
 }
